@@ -3,6 +3,7 @@ package loadbalancer
 import (
 	"bufio"
 	"context"
+	"errors"
 	"fmt"
 	"net"
 	"net/http"
@@ -626,6 +627,10 @@ func (lb *LoadBalancer) ServeHTTP(w http.ResponseWriter, r *http.Request) {
 		err := lb.circuitBreaker.Execute(func() error {
 			return lb.handleRequest(w, r, startTime)
 		})
+		if errors.Is(err, errBackendFailed) {
+			// the backend's own failure: already sent to the client and recorded
+			return
+		}
 		if err != nil {
 			failureCount, successCount, requestCount := lb.circuitBreaker.Counts()
 			logger.Error().
@@ -695,6 +700,12 @@ func (lb *LoadBalancer) findHealthyBackend(r *http.Request) *Backend {
 	return nil
 }
 
+// errBackendFailed reports a proxied request that the backend failed: a 5xx of
+// its own, or the proxy's 502 when it is unreachable. The response has already
+// been written and recorded; the error only tells the circuit breaker that the
+// request counts as a failure.
+var errBackendFailed = errors.New("backend request failed")
+
 // proxyRequest forwards the request to a backend and handles the response
 func (lb *LoadBalancer) proxyRequest(backend *Backend, w http.ResponseWriter, r *http.Request, startTime time.Time) error {
 	// Track the active connection
@@ -729,6 +740,9 @@ func (lb *LoadBalancer) proxyRequest(backend *Backend, w http.ResponseWriter, r 
 	backend.ReverseProxy.ServeHTTP(rw, r)
 	completed = true
 
+	if rw.statusCode >= http.StatusInternalServerError {
+		return errBackendFailed
+	}
 	return nil
 }
 
